@@ -9,7 +9,7 @@ BASE = [
 # structure only: no free text, comments or blanks -- for deep compile/ids/tags enumerations
 STRUCT = [
     "Feature: f\n", "  Rule: r\n", "  Background: b\n", "  Scenario: s\n", "    Examples: e\n", "    Given <a> x\n", "    And y\n",
-    "      | a |\n", "      | 1 |\n", "  @t1 @t1 @t2\n", "      | <a> |\n",
+    "      | a |\n", "      | 1 |\n", "  @t1 @t1 @t2\n", "      | <a> |\n", "      |\n", "  @x<a> @<a>\n",
 ]
 
 # look-ahead: runs of tag / comment / blank lines before Examples, Scenario, Rule
